@@ -228,7 +228,7 @@ def shard_hist(ctx: Ctx, sh: int, nshards: int, n: int) -> Stats:
             for sig, det in fails:
                 st.fail(sig, case, det)
 
-        drive(history_strategy(), one, ctx.shard_seed(sh, 17), n)
+        drive(history_strategy(), one, ctx.shard_seed(sh, 17), n, chunk=4000)
     return st
 
 
